@@ -322,7 +322,17 @@ def enum_cases(tier):
 
     for ki, kname in enumerate(KERNELS):  # stratified by kernel
         draw_for(ki, kname)
-    return out
+    # round-robin over the kernels, small shapes first: if the wall-clock budget cuts the run short on a busy machine,
+    # every kernel has still been exercised
+    by_k = {k: [c for c in out if c["kernel"] == k] for k in KERNELS}
+    for k in by_k:
+        by_k[k].sort(key=lambda c: c["nchans"] * c["nsamps"])
+    ordered = []
+    for i in range(max(len(v) for v in by_k.values())):
+        for k in KERNELS:
+            if i < len(by_k[k]):
+                ordered.append(by_k[k][i])
+    return ordered
 
 
 # ------------------------------------------------------------------ the streaming methods that drive the kernels
